@@ -57,8 +57,7 @@ def _shapes(tier):
                                 out.append((M, tuple(lens), opening, pickup, final, 1 + (bl == 2), 0, 0, bl))
         return out
     for M in range(1, maxM + 1):
-        lens_opts = itertools.product((0, 1, 2), repeat=M) if (tier == 'quick' or M <= 3) else \
-            [l for l in itertools.product((0, 1, 2), repeat=M) if sum(l) <= 5]
+        lens_opts = itertools.product((0, 1, 2), repeat=M) if (tier == 'quick' or M <= 3) else itertools.product((0, 1), repeat=M)
         for lens in lens_opts:
             for opening in (0, 1):
                 for pickup in ((0, 1) if tier == 'quick' else (0, 1, 2)):
@@ -160,6 +159,14 @@ def _b_body(i):
     check(sorted(map(tuple, parts)) == sorted(map(tuple, full)),
           f'single-measure exports give data lines {parts}, the full export has {full}')
     check(parts == full, f'single-measure exports are not in score order: {parts} vs {full}')
+    # after those exports the document still has M measures and still rejects an end beyond M
+    check(doc.measures_count() == M and list(doc) == list(range(1, M + 1)), f'after ranged exports: measures_count() = {doc.measures_count()}, list(doc) = {list(doc)}')
+    for bad in ((1, M + 1), (M + 1, M + 1), (2, 1) if M >= 2 else (1, 0)):
+        try:
+            out = kp.dumps(doc, from_measure=bad[0], to_measure=bad[1], **kw)
+        except ValueError:
+            continue
+        check(False, f'after ranged exports the out-of-range pair {bad} (M={M}) was accepted: {out!r}')
     return True
 
 
@@ -181,7 +188,7 @@ OBLIGATIONS = [
        witnesses=[{'shape': 5, 'a': 1, 'b': 1}, {'shape': 40, 'a': -3, 'b': 1}], min_confirmed=300,
        symbolic='from_measure, to_measure: unbounded integers', enumerated='score shape selector',
        bounds={'quick': 'M<=2 barline-delimited measures x 0..2 data rows each (M=3: 0..1 rows, spine variant rotating) x opening barline x pickup 0..1 x final barline x {1 kern, 2 kern, kern+text}; + first data cell as chord / rest / decorated note (M<=2); + blank lines after the header block / in front of every barline',
-               'thorough': 'M<=4 (<=5 data rows when M=4), pickup 0..2, + {2 kern + text}'},
+               'thorough': 'M<=3 with 0..2 rows per measure, M=4 with 0..1 rows, pickup 0..2, + {2 kern + text}; first-cell kinds for M<=2; blank-line variants for M<=3'},
        assumptions=['symbolic numbers are rendered opaquely inside error messages (tripwire: the sentinel must not reach exported text; native re-runs use real formatting)'],
        describe=_desc),
     Ob(id='C07.b', fn=ob_b, title='single-measure exports partition the data lines; iteration yields 1..M',
